@@ -266,9 +266,9 @@ func init() {
 		Assumptions: []string{"root", "the hard-link timing exception is encoded as: an entry that was a link member whose named member is deleted or replaced in this sync and whose own identity is otherwise equal may be transferred or not"},
 		Cases: func(tier string) int {
 			if tier == "thorough" {
-				return 10000
+				return 30000
 			}
-			return 600
+			return 2000
 		},
 		Batch:         40,
 		MinNontrivial: func(tier string) int { return 150 },
